@@ -9,11 +9,11 @@ from . import build, env, gen, snapshot
 def exc_key(e):
     """Mechanism name for an exception: type + innermost rv function on the traceback."""
     tb = traceback.extract_tb(e.__traceback__)
-    where = "?"
+    where, line = "?", ""
     for fr in tb:
         if fr.filename.startswith(env.SRC):
-            where = fr.name
-    return f"{type(e).__name__}:{where}"
+            where, line = fr.name, (fr.line or "").strip()
+    return f"{type(e).__name__}:{where}:{line[:70]}"
 
 
 class Case:
